@@ -486,7 +486,7 @@ impl Engine for CrashEngine {
         // process; the complete outcome (not only its class) must be the same as it was after
         // everything the long-lived worker had processed before
         if out.violation.is_none() && !seen.is_empty() {
-            let picks = 2 + t.below(3) as usize;
+            let picks = 6 + t.below(5) as usize;
             for _ in 0..picks {
                 let (entry, bytes, class, digest, at) = seen[t.index(seen.len())].clone();
                 let name = ENTRIES[entry].name;
